@@ -7,6 +7,7 @@ CONSTANTS
   KMut = @KMUT@
   KJson = @KJSON@
   KRe = @KRE@
+  KMut2 = @KMUT2@
 INIT Init
 NEXT Next
 VIEW View
